@@ -7,7 +7,8 @@ cd /repo || exit 2
 sed -i "$expr" "$file"
 if git diff --quiet; then echo "MUTATION DID NOT APPLY"; exit 3; fi
 git --no-pager diff -U0 | grep '^[+-]' | grep -v '^+++\|^---'
-cd /verif && python3 tools/check.py "$prop" --tier quick --budget "$budget" | grep -v '^ *$' | tail -6
+cd /verif && cp "evidence/$prop.json" "/verif/build/evidence-$prop.keep" 2>/dev/null; python3 tools/check.py "$prop" --tier quick --budget "$budget" | grep -v '^ *$' | tail -6
 rc=${PIPESTATUS[0]}
 git -C /repo checkout -- .
+cp "/verif/build/evidence-$prop.keep" "evidence/$prop.json" 2>/dev/null
 echo "rc=$rc"
